@@ -18,6 +18,7 @@ UNITS = {
     'BUILDER': dict(template='builder.rs', rlimit=30),
     'SASLNEG': dict(template='saslneg.rs', rlimit=30),
     'SASLMECH': dict(template='saslmech.rs', rlimit=40),
+    'READERS': dict(template='readers.rs', rlimit=40),
 }
 
 COMMON_TRUSTED = [
@@ -75,23 +76,27 @@ PROPS = {
             'NOT DECIDED: strings/symbols/binaries of arbitrary length and Unicode content, arbitrary nesting of lists/maps/arrays/described values, the derive-macro output for the typed protocol items (performatives, SASL bodies, delivery states, messages) -- serde visitor code is outside the Verus subset and too large for CBMC beyond small bounds',
             'compound header writers: the call-site fact count <= byte length (every element occupies at least one byte in this implementation) is assumed; the serde SerializeSeq/Map impls that call them are not under contract']),
     'C05': dict(
-        units=['SERHDR'], kani=K_RT + K_DEC, level='proof', title='Valid encodings / every variant accepted (primitives + compound headers)',
+        units=['SERHDR', 'READERS'], kani=K_RT + K_DEC, level='proof', title='Valid encodings / every variant accepted (primitives + compound headers)',
         assumptions=[
             'PROVED for every value: the fixed-width primitives listed in the obligations (Kani harnesses, loop-free / fully unwound over the full domain) and the compound header writers (Verus)',
             'BOUNDED ONLY (listed under bounded_obligations, never counted as proved): decoders on short byte strings, compound headers with hostile size/count bytes',
             'NOT DECIDED: strings/symbols/binaries of arbitrary length and Unicode content, arbitrary nesting of lists/maps/arrays/described values, the derive-macro output for the typed protocol items (performatives, SASL bodies, delivery states, messages) -- serde visitor code is outside the Verus subset and too large for CBMC beyond small bounds',
             'compound header writers: the call-site fact count <= byte length (every element occupies at least one byte in this implementation) is assumed; the serde SerializeSeq/Map impls that call them are not under contract']),
     'C20': dict(
-        units=['FRAMEDEC'], kani=K_RT + K_READER, level='proof', title='Codec entry points agree (primitives; frame payload)',
+        units=['FRAMEDEC', 'READERS'], kani=K_RT + K_READER, level='proof', title='Codec entry points agree (primitives; frame payload)',
         assumptions=[
             'PROVED for every value: the fixed-width primitives listed in the obligations (Kani harnesses, loop-free / fully unwound over the full domain) and the compound header writers (Verus)',
             'BOUNDED ONLY (listed under bounded_obligations, never counted as proved): decoders on short byte strings, compound headers with hostile size/count bytes',
             'NOT DECIDED: strings/symbols/binaries of arbitrary length and Unicode content, arbitrary nesting of lists/maps/arrays/described values, the derive-macro output for the typed protocol items (performatives, SASL bodies, delivery states, messages) -- serde visitor code is outside the Verus subset and too large for CBMC beyond small bounds',
-            'compound header writers: the call-site fact count <= byte length (every element occupies at least one byte in this implementation) is assumed; the serde SerializeSeq/Map impls that call them are not under contract'] + ['to_value/from_value vs bytes is not covered yet']),
+            'compound header writers: the call-site fact count <= byte length (every element occupies at least one byte in this implementation) is assumed; the serde SerializeSeq/Map impls that call them are not under contract'] + ['to_value/from_value vs bytes is not covered yet',
+            'PROVED for every input (unit READERS): SliceReader and IoReader satisfy ONE Read contract (peek/peek_bytes consume nothing, next/read_exact/read_bytes consume exactly what they return, in order), so decoding from a slice and from a stream see the same bytes and leave the same bytes behind; the LazyValue/byte_buf scanner takes exactly one encoded value (length by the AMQP constructor rule) -- the decoders built on top (de.rs) are not under contract']),
     'C04': dict(
-        units=[], kani=K_TOTAL3 + K_HDR_QUICK + K_HDR_THOROUGH, level='model_checking', manifest_level='model_checking', title='Decoding untrusted bytes (bounded only)',
-        level_text='BOUNDED stand-in only: Kani/CBMC explores every byte string up to the stated length for each listed type on the real serde_amqp crate with overflow checks and unwinding assertions on. Nothing here is counted as proved; recursion depth, allocation size and progress are not decided.',
-        assumptions=['bounded: input length <= 3 bytes per harness (all strings)', 'stack depth, allocation proportional to input, no-loop-without-consuming are NOT decided (a CBMC run cannot bound the real process)', 'structure-aware corruptions of longer encodings are covered only by the thorough-tier compound-header harnesses']),
+        units=['READERS'], kani=K_TOTAL3 + K_HDR_QUICK + K_HDR_THOROUGH, level='proof', title='Decoding untrusted bytes (reader layer proved; decoders bounded)',
+        level_text='Under Verus contracts (unbounded): the reader layer every decoder sits on -- serde_amqp/src/read: the Read trait contract checked against SliceReader and IoReader (peek, next, peek_bytes, read_exact, read_bytes, read_const_bytes, fill_buffer, get_byte_slice) and the LazyValue/byte_buf scanners (read_fixed_bytes, peek_encoded_len, read_encoded_len_bytes, read_primitive_bytes_or_else, read_described_bytes, the format-code and category tables): no panic / overflow / out-of-range index for ANY input and ANY declared length, a length beyond the input is an error, every allocation request that takes its size from the wire is bounded by the input still unread plus 64 KiB, the peek buffer of the io reader only ever holds bytes the stream supplied, the scanners do not recurse. BOUNDED stand-in for the decoders proper (de.rs): Kani/CBMC explores every byte string up to the stated length for each listed type on the real serde_amqp crate with overflow checks and unwinding assertions on; those are listed under bounded_obligations and not counted as proved.',
+        assumptions=['bounded (Kani): input length <= 3 bytes per decoder harness (all strings); structure-aware corruptions of longer encodings only by the thorough-tier compound-header harnesses',
+                     'NOT DECIDED: recursion depth of the serde visitor chain in de.rs / value/de.rs (nested compound values; recursion goes through serde trait dispatch, which no contract here can bound) -- see DESIGN D11b: a 180 KB input of nested list32 headers overflows the stack of the unchanged tree; no-loop-without-consuming inside de.rs',
+                     'allocation is modelled at the request sites that take a length from the wire (vec![0u8; n], Vec::resize): their stand-ins carry the bound as a precondition; Vec growth inside read_to_end/push/append is std-amortised and proportional to the bytes appended; String::from_utf8(buf) reuses buf',
+                     'the stream behind IoReader is an arbitrary byte source that may fail at any point; fewer than 2^64 bytes pass through a reader']),
     'C19': dict(
         units=['FRAMEDEC', 'SASLNEG', 'SASLMECH'], kani=K_SASL, level='proof', title='SASL (listener loop, PLAIN and SCRAM mechanisms, SCRAM client and client loop under contract; crypto and string library calls uninterpreted)',
         level_text='Under Verus contracts: (1) the listener negotiation loop (acceptor/connection.rs negotiate_sasl_with_framed: an AMQP connection is negotiated only after an outcome with code OK was produced by the mechanism and sent; anything else ends in Err); (2) the listener mechanisms: PLAIN (validate_credential / validate_init / on_init / on_response: OK only for the configured user name and password, byte for byte) and SCRAM (ScramVersion::compute_server_final_message, ScramAuthenticator::compute_server_final_message, on_init, on_response: OK only when H(proof XOR HMAC(StoredKey, AuthMessage)) == StoredKey for the user and the combined nonce of this exchange); (3) the SCRAM client (ScramVersion::{compute_client_final_message, validate_server_final, compute_server_signature, compute_client_proof}, auth_message, without_proof, client_final, ScramClient::{compute_client_final_message, validate_server_final}, SaslProfile::on_frame) and the client negotiation loop Builder::negotiate_sasl: Ok only on an outcome frame with code OK, and for a SCRAM profile only if that outcome carries HMAC(ServerKey(password, salt, i), AuthMessage) over an exchange whose server-first message was received as a challenge and whose nonce extends the client nonce; (4) the SASL frame decoder (any body yields Ok or Err, a non-SASL frame type is refused). HMAC/SHA/PBKDF2/XOR, base64 and the str operations are uninterpreted functions. In addition the PLAIN validator is checked by Kani on the real fe2o3-amqp crate for every initial response up to 7 bytes against an independent oracle -- a BOUNDED stand-in listed under bounded_obligations, not counted as proved.',
